@@ -723,7 +723,7 @@ func runC04(c *mon.Ctx) {
 		rd := func(n int) []int32 {
 			d := make([]int32, n)
 			for j := range d {
-				d[j] = int32(r.Intn(300))
+				d[j] = liveDelta(r, 300)
 				if r.P(1, 5) {
 					d[j] = 0
 				}
